@@ -40,6 +40,7 @@ def generate(rnd, tier):
             # a line of exactly the width followed by a line break / end / blanks
             t = "x" * w + rnd.choice(["\n", "\n\n", "", " \n", "  "]) + t
         cases.append({"op": "text", "text": t, "w": w})
+        if len(cases) % 7 == 0: cases[-1]["bytes"] = True
         if rnd.random() < 0.3:
             cases.append({"op": "wrap", "text": t.replace("\n", " "), "w": max(1, w)})
         if rnd.random() < 0.25:
